@@ -8,40 +8,53 @@
    [reply_tree id t]: t is an iq element (no name space or a content name space)
    whose id is [id] and whose type is not get or set — exactly what the session
    counts as the handler's reply (a missing or unknown type counts too).
-   [default_tree id to] is the service-unavailable error reply. *)
-From XV Require Import lib.Bytes lib.Xml gen.Serve C08.Model C08.Case C08.Proofs C07.Model C07.Proofs.
+   [default_tree id to] is the service-unavailable error reply.
 
-(* An incoming get/set IQ whose invocation ends without error: if the handler
-   wrote a reply (a top-level element that counts as one) the session adds
-   nothing; otherwise it adds exactly one element, the service-unavailable error
-   with the request's id, which itself counts as the reply, addressed to the
-   (parsed) sender when the request named one and unaddressed otherwise — never
-   both. Handlers are arbitrary; what they wrote is any forest [f]. *)
+   Outstanding requests of the session itself (SendIQ, SendMessage, SendPresence
+   calls waiting for their response) are part of every statement: [tb] is the
+   table of these registrations at the moment the element arrives, an arbitrary
+   [ptable]; in a whole run other goroutines change it arbitrarily between any
+   two elements ([env]). [his_p] is handleInputStream with that table; its
+   result is [PH h] (the element was handled as [his] does, [h = HRInv v] for a
+   handler invocation) or [PDiv d] (the element was handed to the waiter of an
+   outstanding request instead). *)
+From XV Require Import lib.Bytes lib.Xml gen.Serve C08.Model C08.Case C08.Proofs C07.Model C07.Proofs C07.Pending.
+
+(* An incoming get/set IQ, whatever requests of our own are outstanding (any
+   table [tb], also one holding the very id of the request): the handler is
+   invoked on it (it is never handed to a waiter; the table is left alone), and
+   if the invocation ends without error then: if the handler wrote a reply (a
+   top-level element that counts as one) the session adds nothing; otherwise it
+   adds exactly one element, the service-unavailable error with the request's
+   id, which itself counts as the reply, addressed to the (parsed) sender when
+   the request named one and unaddressed otherwise — never both. Handlers are
+   arbitrary; what they wrote is any forest [f]. *)
 Theorem C07_exactly_one_reply :
-  forall (c : cfg) (fuel : nat) (hf : handlers) (pd : N) (n : name) (a : list attr) (l : list token)
-         (v : inv) (p' : pst) (f : list tree),
+  forall (c : cfg) (fuel : nat) (tb : ptable) (hf : handlers) (pd : N) (n : name) (a : list attr)
+         (l : list token) (f : list tree),
   clean (c_ws c) (TStart n a) = true -> length l < fuel ->
-  his c fuel hf (mkp (TStart n a :: l) pd false) = (HRInv v, p') ->
   let a' := shown_attrs c n a in
   let id := fst (get_id_typ a') in
   let from := attr_get s_from a' in
   is_iq n = true -> needs_resp (snd (get_id_typ a')) = true ->
-  v_ret v = None -> v_hw v = tokens_of_forest f ->
-  (existsb (reply_tree id) f = true -> v_auto v = []) /\
-  (existsb (reply_tree id) f = false ->
-     exists j, v_auto v = tokens_of_tree (default_tree id j) /\
-               reply_tree id (default_tree id j) = true /\
-               (from = [] -> j = []) /\ (from <> [] -> c_jp c from = Some j)).
-Proof. exact c07_exactly_one_reply. Qed.
+  exists v p', his_p c fuel tb hf (mkp (TStart n a :: l) pd false) = (PH (HRInv v), p', tb) /\
+    v_name v = n /\ v_attrs v = a' /\
+    (v_ret v = None -> v_hw v = tokens_of_forest f ->
+      (existsb (reply_tree id) f = true -> v_auto v = []) /\
+      (existsb (reply_tree id) f = false ->
+         exists j, v_auto v = tokens_of_tree (default_tree id j) /\
+                   reply_tree id (default_tree id j) = true /\
+                   (from = [] -> j = []) /\ (from <> [] -> c_jp c from = Some j))).
+Proof. exact c07_exactly_one_reply_p. Qed.
 Print Assumptions C07_exactly_one_reply.
 
 (* Elements with another id, of type get or set, outside the iq name, or nested
    inside other elements do not count: the default reply is still added. *)
 Theorem C07_other_ids_dont_count :
-  forall (c : cfg) (fuel : nat) (hf : handlers) (pd : N) (n : name) (a : list attr) (l : list token)
-         (v : inv) (p' : pst) (f : list tree),
+  forall (c : cfg) (fuel : nat) (tb : ptable) (hf : handlers) (pd : N) (n : name) (a : list attr) (l : list token)
+         (v : inv) (p' : pst) (tb' : ptable) (f : list tree),
   clean (c_ws c) (TStart n a) = true -> length l < fuel ->
-  his c fuel hf (mkp (TStart n a :: l) pd false) = (HRInv v, p') ->
+  his_p c fuel tb hf (mkp (TStart n a :: l) pd false) = (PH (HRInv v), p', tb') ->
   let a' := shown_attrs c n a in
   let id := fst (get_id_typ a') in
   is_iq n = true -> needs_resp (snd (get_id_typ a')) = true ->
@@ -52,36 +65,75 @@ Theorem C07_other_ids_dont_count :
                        | _ => True
                        end) ->
   exists j, v_auto v = tokens_of_tree (default_tree id j).
-Proof. exact c07_other_ids_dont_count. Qed.
+Proof. exact c07_other_ids_dont_count_p. Qed.
 Print Assumptions C07_other_ids_dont_count.
 
 (* IQs of type result or error (or any type other than get/set) and elements
-   that are not IQs never get an automatic reply, however the invocation ends. *)
+   that are not IQs never get an automatic reply, however the invocation ends
+   and whatever is outstanding. *)
 Theorem C07_no_auto_reply_otherwise :
-  forall (c : cfg) (fuel : nat) (hf : handlers) (pd : N) (n : name) (a : list attr) (l : list token)
-         (v : inv) (p' : pst),
+  forall (c : cfg) (fuel : nat) (tb : ptable) (hf : handlers) (pd : N) (n : name) (a : list attr) (l : list token)
+         (v : inv) (p' : pst) (tb' : ptable),
   clean (c_ws c) (TStart n a) = true -> length l < fuel ->
-  his c fuel hf (mkp (TStart n a :: l) pd false) = (HRInv v, p') ->
+  his_p c fuel tb hf (mkp (TStart n a :: l) pd false) = (PH (HRInv v), p', tb') ->
   is_iq n = false \/ needs_resp (snd (get_id_typ (shown_attrs c n a))) = false ->
   v_auto v = [].
-Proof. exact c07_no_auto_reply_otherwise. Qed.
+Proof. exact c07_no_auto_reply_otherwise_p. Qed.
 Print Assumptions C07_no_auto_reply_otherwise.
 
-(* The whole run of Serve on any script and any handlers: every invocation is
-   one of the above; if Serve returns nil all of them ended without error (so
-   every request among them was answered exactly once); otherwise only the last
-   one can have failed and Serve returns an error — the stream is terminated.
-   In particular a handler returning a bare EOF does not end Serve silently
-   (C08_resync: an invocation never ends with EOF). *)
+(* Only responses are ever handed to waiters: an element that goes to the waiter
+   of an outstanding request instead of the handler has type result or error
+   (so it is no request and needs no reply), the table held an entry with its id
+   whose registered name accepts the element's name, and the only effect on the
+   table is that a waiter that took its response is no longer registered.
+   Nothing is written for such an element ([dinv] has no output). *)
+Theorem C07_only_responses_reach_waiters :
+  forall (c : cfg) (fuel : nat) (tb : ptable) (hf : handlers) (pd : N) (n : name) (a : list attr) (l : list token)
+         (d : dinv) (p' : pst) (tb' : ptable),
+  clean (c_ws c) (TStart n a) = true -> length l < fuel ->
+  his_p c fuel tb hf (mkp (TStart n a :: l) pd false) = (PDiv d, p', tb') ->
+  let a' := shown_attrs c n a in
+  (d_name d = n /\ d_attrs d = a' /\
+   (snd (get_id_typ a') = sv_iq_result \/ snd (get_id_typ a') = sv_iq_error) /\
+   needs_resp (snd (get_id_typ a')) = false /\
+   exists e, In e tb /\ pe_id e = fst (get_id_typ a') /\ d_id d = pe_id e /\
+             name_accepts (pe_name e) n = true /\ d_taken d = pe_live e) /\
+  tb' = (if d_taken d then pt_remove (d_id d) tb else tb).
+Proof. exact c07_only_responses_diverted. Qed.
+Print Assumptions C07_only_responses_reach_waiters.
+
+(* The whole run of Serve on any script, any handlers, any initial table of
+   outstanding requests and any interference [env] of other goroutines with that
+   table: every event is a handler invocation meeting the per-invocation
+   specification (hence the rules above) or a response handed to a waiter; if
+   Serve returns nil all of them ended without error (so every request among
+   them was answered exactly once); otherwise only the last one can have failed
+   and Serve returns an error — the stream is terminated. In particular a
+   handler returning a bare EOF does not end Serve silently (C08_resync: an
+   invocation never ends with EOF). *)
 Theorem C07_answered_or_stream_terminated :
-  forall (c : cfg) (hf : nat -> handlers) (toks : list token) (base : list name),
+  forall (c : cfg) (env : nat -> ptable -> ptable) (hf : nat -> handlers) (tb : ptable)
+         (toks : list token) (base : list name),
   ends_match base toks = true ->
-  let r := serve_all c hf toks in
-  Forall (fun v => exists n a pre e p', clean (c_ws c) (TStart n a) = true /\ inv_spec c n a 0%N pre e v p') (s_invs r) /\
-  (s_ret r = None -> Forall (fun v => v_ret v = None) (s_invs r)) /\
-  (forall v, In v (removelast (s_invs r)) -> v_ret v = None).
-Proof. exact c07_serve. Qed.
+  let r := serve_all_p c env hf tb toks in
+  Forall (fun ev => match ev with
+                    | EvInv v => exists n a pre e p', clean (c_ws c) (TStart n a) = true /\ inv_spec c n a 0%N pre e v p'
+                    | EvDiv d => exists tb0 n a, clean (c_ws c) (TStart n a) = true /\ div_spec c tb0 n a d
+                    end) (sp_events r) /\
+  (sp_ret r = None -> Forall (fun ev => ev_ret ev = None) (sp_events r)) /\
+  (forall ev, In ev (removelast (sp_events r)) -> ev_ret ev = None).
+Proof. exact c07_serve_p. Qed.
 Print Assumptions C07_answered_or_stream_terminated.
+
+(* With nothing outstanding and nobody registering anything the loop is the
+   plain one of C08 (so the C08 theorems speak about the same function). *)
+Theorem C07_nothing_outstanding_is_plain_serve :
+  forall (c : cfg) (hf : nat -> handlers) (fuel idx k : nat) (p : pst),
+  let r := serve_p c fuel env_id hf idx k [] p in
+  sp_ret r = s_ret (serve c fuel hf idx p) /\ sp_events r = map EvInv (s_invs (serve c fuel hf idx p)) /\
+  sp_rest r = s_rest (serve c fuel hf idx p).
+Proof. exact serve_p_nil. Qed.
+Print Assumptions C07_nothing_outstanding_is_plain_serve.
 
 (* The multiplexer (repaired iqRouter) with no handler registered: a get/set IQ
    — with a payload element, with text, with whitespace only or with nothing at
@@ -91,19 +143,19 @@ Print Assumptions C07_answered_or_stream_terminated.
    agrees with the session's reading of id and type when attributes are
    unqualified.) *)
 Theorem C07_mux_fallback :
-  forall (c : cfg) (fuel mf : nat) (m : muxcfg) (pd : N) (n : name) (a : list attr) (l : list token)
-         (v : inv) (p' : pst) (q : iqv),
+  forall (c : cfg) (fuel mf : nat) (m : muxcfg) (tb : ptable) (pd : N) (n : name) (a : list attr) (l : list token)
+         (v : inv) (p' : pst) (tb' : ptable) (q : iqv),
   m_regs m = [] -> m_fixed m = true ->
-  clean (c_ws c) (TStart n a) = true ->
+  clean (c_ws c) (TStart n a) = true -> length l < fuel ->
   let a' := shown_attrs c n a in
   let id := fst (get_id_typ a') in
-  his c fuel (mux_handler m (c_jp c) mf) (mkp (TStart n a :: l) pd false) = (HRInv v, p') ->
+  his_p c fuel tb (mux_handler m (c_jp c) mf) (mkp (TStart n a :: l) pd false) = (PH (HRInv v), p', tb') ->
   is_iq n = true -> stanza_is n (m_ns m) && bytes_eqb (nlocal n) s_iq = true ->
   needs_resp (snd (get_id_typ a')) = true ->
   new_iq (c_jp c) n a' = Some q -> q_id q = id -> q_typ q = snd (get_id_typ a') ->
   (v_hw v = tokens_of_tree (fallback_tree q) /\ reply_tree id (fallback_tree q) = true /\ v_auto v = []) \/
   (v_hw v = [] /\ v_auto v = [] /\ v_ret v <> None).
-Proof. exact c07_mux_fallback. Qed.
+Proof. exact c07_mux_fallback_p. Qed.
 Print Assumptions C07_mux_fallback.
 
 (* The multiplexer as pinned (iqRouter returns io.EOF for an IQ without payload):
@@ -118,11 +170,23 @@ Theorem C07_mux_fallback_pinned_refuted :
 Proof. exact c07_mux_pinned_refuted. Qed.
 Print Assumptions C07_mux_fallback_pinned_refuted.
 
-(* The rule depends on these constants of the source (regenerated on every run). *)
+(* The rule depends on these constants and conditions of the source (regenerated
+   on every run): which types are requests; the iq names; and the condition under
+   which handleInputStream consults the table of outstanding requests — a
+   disjunction of comparisons of the type with "result" and "error" and nothing
+   else (in particular not "any IQ"), at the single place where the table is
+   used — so that no type that needs a reply ever consults it. *)
 Theorem C07_tables :
   (needs_resp sv_iq_get = true /\ needs_resp sv_iq_set = true) /\
   (needs_resp sv_iq_error = false /\ needs_resp sv_iq_result = false) /\
   (is_iq (mkname sv_ns_client s_iq) = true /\ is_iq (mkname sv_ns_server s_iq) = true /\
-   is_iq_empty (mkname [] s_iq) = true /\ is_iq (mkname [] s_iq) = false).
-Proof. exact (conj tbl_get_set_are_requests (conj tbl_error_is_no_request tbl_iq_names)). Qed.
+   is_iq_empty (mkname [] s_iq) = true /\ is_iq (mkname [] s_iq) = false) /\
+  (sv_lookup_any_iq = false /\ sv_lookup_unrecognised = 0 /\ sv_lookup_sites = 1 /\ sv_lookup_uses = 1) /\
+  sv_lookup_types = [sv_iq_result; sv_iq_error] /\
+  (sv_needs_resp_any_iq = false /\ sv_needs_resp_unrecognised = 0 /\ sv_needs_resp_types = [sv_iq_get; sv_iq_set]) /\
+  (forall b typ, needs_resp typ = true -> consults b typ = false).
+Proof.
+  exact (conj tbl_get_set_are_requests (conj tbl_error_is_no_request (conj tbl_iq_names
+          (conj tbl_lookup_shape (conj tbl_lookup_types (conj tbl_needs_resp_shape consults_not_requests)))))).
+Qed.
 Print Assumptions C07_tables.
